@@ -428,14 +428,37 @@ def D_len_plus(s, ctx):
     if s.kind != "assert:overflow:Add":
         return None
     rv = overflow_binop(s)
-    if not rv or rv["b"].get("k") != "const" or not (0 < rv["b"].get("int", 0) <= 16):
+    if not rv:
         return None
-    l = op_local(rv["a"])
+    a_, b_ = rv["a"], rv["b"]
+    if b_.get("k") != "const" and a_.get("k") == "const":
+        a_, b_ = b_, a_           # `1 + len`
+    if b_.get("k") != "const" or not (0 < b_.get("int", 0) <= 16):
+        return None
+    l = op_local(a_)
     if l is None:
         return None
     d = def_of(s.body, through_copies(s.body, l))
     if d and d[0] == "call" and ((d[1].name or "").endswith("::len") or (d[1].name or "").endswith("::capacity")):
-        return "length of an existing collection plus %d (a collection cannot hold usize::MAX elements)" % rv["b"]["int"]
+        return "length of an existing collection plus %d (a collection cannot hold usize::MAX elements)" % b_["int"]
+    # the index handed out by Iterator::enumerate() is below the length of what is iterated
+    pr = Prov(s.body, LOOKX)
+    at = [x for x in pr.origins(a_) if x[0] not in ("via", "op")]
+    if at and all(x[0] == "call" and "Enumerate<" in (s.body.call_at[x[1]].full or s.body.call_at[x[1]].name or "")
+                  and (s.body.call_at[x[1]].callee or "").endswith("Iterator::next")
+                  and [p_ for p_ in x[2] if p_.startswith("f")][-1:] == ["f0"] for x in at):
+        return "index of Iterator::enumerate() plus %d (it counts the elements of an existing collection)" % b_["int"]
+    return None
+
+
+def D_full_range(s, ctx):
+    """`drain(..)` / `[..]`: the full range is in bounds and on character boundaries for every collection."""
+    if s.kind not in ("call:drain",):
+        return None
+    c = s.call
+    g = " ".join(c.gargs or []) + " " + (c.full or "")
+    if "RangeFull" in g:
+        return "drain(..) over the full range"
     return None
 
 
@@ -987,6 +1010,14 @@ def D_capacity(s, ctx):
         return "constant capacity %s" % arg.get("int") if arg.get("int", 1 << 40) <= 1 << 20 else None
     pr = Prov(b, LOOKX)
     at = pr.call_arg_origins(c, 0)
+    # a field of self that is a bounded capacity hint (every value ever stored is a constant or min(.., constant))
+    fa = [a for a in at if a[0] == "arg" and a[1] == 1]
+    if fa and len(fa) == len([a for a in at if a[0] not in ("via", "op")]) and b.arg_count >= 1:
+        owner = common._strip_ty(b.local_ty(1))
+        hf = common.hint_fields(ctx.lib, owner)
+        fl = {tuple(p for p in a[2] if p != "deref") for a in fa}
+        if all(len(x) == 1 and int(x[0][1:]) in hf and hf[int(x[0][1:])][0] for x in fl):
+            return "capacity is a field that only ever holds a constant or min(.., constant) (a bounded size hint)"
     sized = ("::len", "::capacity", "::count", "::min")
 
     def is_size_call(a):
@@ -1002,6 +1033,12 @@ def D_capacity(s, ctx):
     for a in at:
         if a[0] == "call" and (b.call_at[a[1]].name or "").endswith("::min"):
             m = b.call_at[a[1]]
+            for o in m.args:
+                if o.get("k") == "const" and 0 <= o.get("int", 1 << 40) <= 1 << 20:
+                    return "capacity is min(.., %d)" % o["int"]
+                oc = [t for t in pr.origins(o) if t[0] not in ("via", "op")]
+                if oc and all(t[0] == "const" for t in oc):
+                    return "capacity is min(.., a constant)"
             for o in m.args:
                 oa = [t for t in pr.origins(o) if t[0] in ("arg", "call", "local")]
                 if oa and all(t[0] == "call" and is_size_call(t) for t in oa):
@@ -1107,7 +1144,7 @@ def D_div_zero_guard(s, ctx):
 
 DISCHARGERS = [D_ubcheck, D_counter, D_param_counter, D_depth, D_interval, D_len_plus, D_find_plus, D_sub_guard, D_sub_nonempty, D_countdown,
                D_caller_nonzero, D_byte_domain, D_constant, D_index_find, D_unwrap_some, D_borrow, D_const_index,
-               D_capacity, D_cache_size, D_fmt, D_div_zero_guard]
+               D_capacity, D_cache_size, D_full_range, D_fmt, D_div_zero_guard]
 
 
 def census(rep, ctx, rid="C05-PANIC-CENSUS", crates=("lib", "bin")):
